@@ -51,7 +51,7 @@ def emulsion_ops(draw, dim, cls0, n):
         name = draw(
             st.sampled_from(
                 ["append", "append", "append", "append_nocopy", "extend", "construct", "copy", "copy_min", "slice", "add", "remove_small",
-                 "remove_overlapping", "linked_write", "merge", "clear", "reject_dim", "reject_layout", "reject_extend", "accept_inconsistent",
+                 "remove_overlapping", "linked_write", "merge", "clear", "reorder", "reject_dim", "reject_layout", "reject_extend", "accept_inconsistent",
                  "mutate_owned", "mutate_owned", "mutate_derived", "mutate_source", "getitem", "queries"]
             )
         )
@@ -71,6 +71,9 @@ def emulsion_ops(draw, dim, cls0, n):
             op["i"] = draw(_idx)
             op["r"] = draw(st.sampled_from([0.25, 0.75, 3.0]))
         elif name == "merge":
+            op["i"], op["j"] = draw(_idx), draw(_idx)
+        elif name == "reorder":  # in-place list operations on the emulsion: reverse, swap two members, rotate
+            op["how"] = draw(st.sampled_from(["reverse", "swap", "rotate"]))
             op["i"], op["j"] = draw(_idx), draw(_idx)
         elif name == "reject_dim":
             op["d"] = draw(drop(dim % 3 + 1, "SphericalDroplet" if cls0 == "PerturbedDroplet2D" else cls0))
@@ -389,6 +392,18 @@ class C20(Property):
             elif name == "clear":
                 E.clear()
                 M.clear()
+            elif name == "reorder":
+                if n >= 2:
+                    if op["how"] == "reverse":
+                        E.reverse()
+                        M.reverse()
+                    elif op["how"] == "swap":
+                        i, j = op["i"] % n, op["j"] % n
+                        E[i], E[j] = E[j], E[i]
+                        M[i], M[j] = M[j], M[i]
+                    else:
+                        E.append(E.pop(0), copy=False)
+                        M.append(M.pop(0))
             elif name in ("reject_dim", "reject_layout"):
                 if n == 0:
                     continue
